@@ -773,6 +773,9 @@ func TestC10_Leader(t *testing.T) {
 type c10Relay struct {
 	Static [2]int   `json:"static"` // member number, total
 	Puts   [][2]int `json:"puts"`   // PUT /membership/info bodies, in order
+	// Early: numberings announced on the bus of a FRESH dynamic membership before anybody asked it (the API is up before the
+	// stream opens): the first GetInfo() - and every later one - gives the last of them
+	Early [][2]int `json:"early,omitempty"`
 }
 
 func freePort() int {
@@ -848,6 +851,24 @@ func c10ExecRelay(sc c10Relay) string {
 	if i := st.GetInfo(); i.MemberNumber != sc.Static[0] || i.TotalMembers != sc.Static[1] {
 		return fmt.Sprintf("static membership reports %d/%d, configured %d/%d", i.MemberNumber, i.TotalMembers, sc.Static[0], sc.Static[1])
 	}
+	if len(sc.Early) > 0 {
+		bus := EventBus.New()
+		dm := membership.NewDynamicMembership(bus)
+		for _, p := range sc.Early {
+			bus.Publish(helpers.MembershipChangedBusEventName, &membership.Model{MemberNumber: p[0], TotalMembers: p[1]})
+		}
+		last := sc.Early[len(sc.Early)-1]
+		for k := 0; k < 2; k++ {
+			var info *membership.Model
+			if ok, _ := within(5*time.Second, func() { info = dm.GetInfo() }); !ok || info == nil {
+				return fmt.Sprintf("dynamic membership: GetInfo() does not return although %d numberings were announced", len(sc.Early))
+			}
+			if info.MemberNumber != last[0] || info.TotalMembers != last[1] {
+				return fmt.Sprintf("dynamic membership: numberings %v were announced before anybody asked; GetInfo() call %d reports %d/%d, the one in effect is %d/%d", sc.Early, k+1, info.MemberNumber, info.TotalMembers, last[0], last[1])
+			}
+		}
+		dm.Close()
+	}
 	if len(sc.Puts) == 0 {
 		return ""
 	}
@@ -901,6 +922,10 @@ func TestC10_Relay(t *testing.T) {
 			tt := rapid.IntRange(1, 8).Draw(rt, "t")
 			sc.Puts = append(sc.Puts, [2]int{rapid.IntRange(1, tt).Draw(rt, "m"), tt})
 		}
+		for i, n := 0, rapid.IntRange(0, 3).Draw(rt, "early"); i < n; i++ {
+			tt := rapid.IntRange(1, 8).Draw(rt, "et")
+			sc.Early = append(sc.Early, [2]int{rapid.IntRange(1, tt).Draw(rt, "em"), tt})
+		}
 		d := c10ExecRelay(sc)
 		if strings.HasPrefix(d, "HARNESS") {
 			rt.Skip(d)
@@ -908,7 +933,11 @@ func TestC10_Relay(t *testing.T) {
 		if d != "" {
 			violation(rt, "C10", "c10relay", sc, "%s", d)
 		}
-		record("C10", sc, rep, "relay_cases")
+		labs := []string{"relay_cases"}
+		if len(sc.Early) >= 2 {
+			labs = append(labs, "several_numberings_before_the_first_question")
+		}
+		record("C10", sc, rep || len(sc.Early) >= 2, labs...)
 	})
 }
 
